@@ -89,7 +89,8 @@ func rcBuild(c rcacheCase, cached bool) *rcTwin {
 			ms = append(ms, m.(string))
 		}
 		t.routes = append(t.routes, t.r.AddNamed(tag, row[0].(string), func(cx *rux.Context) {
-			cx.Text(200, tag+"|"+paramsTag(cx.Params))
+			// (what the router tells the handler about the selected route is part of what the request observes)
+			cx.Text(200, fmt.Sprintf("%s|%s|%v@%v", tag, paramsTag(cx.Params), cx.SafeGet(rux.CTXCurrentRouteName), cx.SafeGet(rux.CTXCurrentRoutePath)))
 		}, ms...))
 		if t.sib != nil {
 			t.sib.AddNamed(tag, row[0].(string), func(cx *rux.Context) { cx.Text(200, "SIBLING-"+tag) }, ms...)
